@@ -310,7 +310,7 @@ func VisitFinite(c FiniteCfg, hist []uint8, which string, probes *int64) (uint64
 	if c.Auto {
 		nextID = strconv.Itoa(next)
 	}
-	ids = append(ids, probeID{"zz", true, "never issued"}, probeID{"4000000000", true, "never issued"}, probeID{nextID, true, "never issued (next to be issued)"}, probeID{"", false, "unset"})
+	ids = append(ids, probeID{"zz", true, "never issued"}, probeID{"4000000000", true, "never issued"}, probeID{"18446744073709551616", true, "never issued"}, probeID{"18446744073709551619", true, "never issued"}, probeID{"-1", true, "never issued"}, probeID{"1.5", true, "never issued"}, probeID{nextID, true, "never issued (next to be issued)"}, probeID{"", false, "unset"})
 	for _, pid := range ids {
 		pos := -1
 		for i, e := range model {
